@@ -201,7 +201,8 @@ def r2_message(repo):
     obs = []
     errs = _error_stores(o)
     regions = {
-        "crash": lambda e: e["C"],
+        # a program the tool itself failed on keeps its own error message, also when the compiler crashed on the batch
+        "crash": lambda e: e["C"] and not e["F"],
         "expected-pass-rejected": lambda e: (not e["C"]) and (not e["F"]) and e["O"] and e["E"],
         "expected-fail-accepted": lambda e: (not e["C"]) and (not e["F"]) and (not e["O"]) and (not e["E"]),
     }
@@ -233,7 +234,7 @@ def r2_message(repo):
             # and an output store exists under the same condition, after it
             if ok:
                 reg = _region(o, cands[0])
-                outs = [s for s in o.stores if _region(o, s) == reg]
+                outs = [s for s in o.stores if reg <= _region(o, s)]
                 ok = bool(outs)
                 msg += "; no report store under the same condition" if not ok else ""
         obs.append(Ob("C15-R2", "message:" + name, _w(o.f, cands[0] if cands else None), ok, msg))
@@ -260,9 +261,10 @@ def r3_save(repo):
         c_related = any(not dict(zip(ATOMS, r))["F"] for r in reg)
         if not c_related:
             continue
-        near = [c for c in cts if _region(o, c) == reg]
+        cr = frozenset(r for r in reg if not dict(zip(ATOMS, r))["F"])
+        near = [c for c in cts if cr <= _region(o, c)]
         ok = len(near) >= 1
-        msg = "compiler-related report at line %d has no copytree under the same condition" % st.lineno
+        msg = "compiler-related report at line %d has no copytree on all of its compiler-related rows" % st.lineno
         if ok:
             c = near[0]
             ok = len(c.args) >= 2 and \
